@@ -450,6 +450,39 @@ func H_C05_upgrade_inflight() {
 	vReach("upgrade inflight")
 }
 
+func init() { vReg("H_C05_shutdown_notice", H_C05_shutdown_notice) }
+
+// C05 / C15: the server is stopped while handlers of the connection are still
+// writing: the read loop's notice of disconnection and the handlers' responses
+// go through the same bufio.Writer and must be serialised like any two responses.
+func H_C05_shutdown_notice() {
+	vSchedFork(1)
+	m := vMux()
+	nc := vNetConn("c")
+	hf := func(w *ResponseWriter, r *Request) {
+		_ = w.Write(r.NewResponse(WithResponseCode(ResultSuccess)))
+	}
+	vAssume(m.Delete(hf) == nil && m.DefaultRoute(hf) == nil)
+	ctx, cancel := context.WithCancel(context.Background())
+	N := 1 + vLen("extraRequests", 1)
+	for i := 0; i < N; i++ {
+		vConnFeed(nc, vWire(refEnvelope(int64(i+1), refDeleteOp(), nil)))
+	}
+	vConnFeedCall(nc, cancel) // Stop arrives while the loop is about to read the next request
+	vConnFeed(nc, vWire(refEnvelope(int64(N+1), refDeleteOp(), nil)))
+	c, err := newConn(ctx, 1, nc, vLogger(), m)
+	vAssume(err == nil)
+	_ = c.serveRequests()
+	c.requestsWg.Wait()
+	total := vConnWrites(nc)
+	vAssert(total == N+2, "one frame per response plus the notice of disconnection")
+	for i := 0; i < total; i++ {
+		p := ber.DecodePacket(vConnWriteN(nc, i))
+		vAssert(p != nil && len(p.Children) >= 2, "every chunk the client receives is one whole LDAPMessage")
+	}
+	vReach("shutdown notice")
+}
+
 // C05(ii): inductive step of one Write: from an empty buffer and a free lock,
 // Write returns nil only after emitting exactly the response's bytes, contiguously.
 func H_C05_step() {
